@@ -250,24 +250,22 @@ theorem argsOf_built {V : Type} [DecidableEq V] {F : Flat Q U V} {A : DFTA Sym Q
     simp only [isAlt, Bool.and_eq_true, decide_eq_true_eq] at hi
     exact ⟨hk, r, hr, hi.1, by rw [hi.2, ← e2]; exact haa⟩
 
-/-- **`clean()` returns** on the grammar that `from_DFTA` builds from an acyclic automaton, for
-    every number of iterations beyond a bound (the size of the exploration from the start
-    configurations) — with `C06_clean_fromDFTA_partial`: total correctness of
-    `UCFG.from_DFTA(dfta)` with its default `clean=True`. -/
-theorem C06_clean_terminates_partial (d : Q → UNT U) (A : DFTA Sym Q) (hinj : InjOn d A)
-    (hac : Acyclic A) (G : UCFG U) (h : fromDFTA d A = some G) :
+/-- `clean()` returns on the grammar built by the worklist construction (any flattening
+    scheme) from an acyclic automaton -/
+theorem clean_terminates_built {V : Type} [DecidableEq V] (F : Flat Q U V) (A : DFTA Sym Q)
+    (hpc : ∀ tgt P i x, F.proj (F.child tgt P i x) = x) (hinj : InjOn F.d A) (hac : Acyclic A)
+    (G : UCFG V) (hb : Built F A G) :
     ∃ fuel0, ∀ fuel, fuel0 ≤ fuel → ∃ Gc, clean G fuel = some Gc := by
   obtain ⟨rank, hrank⟩ := hac
-  have hb := built_of_build _ A _ G h
   let rankU : UNT U → Nat := fun x =>
-    match A.allStates.find? (fun q => decide (d q = x)) with
+    match A.allStates.find? (fun q => decide (F.d q = x)) with
     | some q => rank q
     | none => 0
-  have hru : ∀ q ∈ A.allStates, rankU (d q) = rank q := by
+  have hru : ∀ q ∈ A.allStates, rankU (F.d q) = rank q := by
     intro q hq
-    show (match A.allStates.find? (fun q' => decide (d q' = d q)) with
+    show (match A.allStates.find? (fun q' => decide (F.d q' = F.d q)) with
       | some q' => rank q' | none => 0) = rank q
-    cases hfind : A.allStates.find? (fun q' => decide (d q' = d q)) with
+    cases hfind : A.allStates.find? (fun q' => decide (F.d q' = F.d q)) with
     | none =>
       have := List.find?_eq_none.mp hfind q hq
       simp at this
@@ -276,24 +274,44 @@ theorem C06_clean_terminates_partial (d : Q → UNT U) (A : DFTA Sym Q) (hinj : 
       have h2 := List.mem_of_find?_eq_some hfind
       simp only [decide_eq_true_eq] at h1
       rw [hinj q' h2 q hq h1]
-  have hrk : ∀ S, ∀ a ∈ CL.argsOf G S, rankU a < rankU S := by
+  have hrk : ∀ S, ∀ a ∈ CL.argsOf G S, rankU (F.proj a) < rankU (F.proj S) := by
     intro S a ha
     obtain ⟨_, r, hr, hm, hx⟩ := argsOf_built hb S a ha
     obtain ⟨a', ha', i, rfl⟩ := mem_newArgs S r.1.1 r.1.2 a hx
     have hst := mem_allStates_of_rule A (l := r.1.1) (args := r.1.2) (d := r.2) hr
-    have hS : d r.2 = S := by
+    have hS : F.d r.2 = F.proj S := by
       have := hm
-      simp only [matchesTgt, plainFlat, id] at this
+      simp only [matchesTgt] at this
       exact of_decide_eq_true this
-    show rankU (d a') < rankU S
-    rw [← hS, hru a' (hst.2 a' ha'), hru r.2 hst.1]
+    rw [hpc, ← hS, hru a' (hst.2 a' ha'), hru r.2 hst.1]
     exact hrank r hr a' ha'
   have hclosed : ∀ S ∈ AList.keys G.rules, ∀ a ∈ CL.argsOf G S, a ∈ AList.keys G.rules := by
     intro S hS a ha
     obtain ⟨_, r, hr, hm, hx⟩ := argsOf_built hb S a ha
     exact hb.closed S hS r hr hm a hx
-  refine ⟨CL.pot G rankU (cleanInit G).toTest + 1, fun fuel hfuel => ?_⟩
-  exact CL.clean_terminates G rankU hrk hclosed hb.starts fuel (by omega)
+  refine ⟨CL.pot G (fun k => rankU (F.proj k)) (cleanInit G).toTest + 1, fun fuel hfuel => ?_⟩
+  exact CL.clean_terminates G (fun k => rankU (F.proj k)) hrk hclosed hb.starts fuel (by omega)
+
+/-- **`clean()` returns** on the grammar that `from_DFTA` builds from an acyclic automaton, for
+    every number of iterations beyond a bound (the size of the exploration from the start
+    configurations) — with `C06_clean_fromDFTA_partial`: total correctness of
+    `UCFG.from_DFTA(dfta)` with its default `clean=True`. -/
+theorem C06_clean_terminates_partial (d : Q → UNT U) (A : DFTA Sym Q) (hinj : InjOn d A)
+    (hac : Acyclic A) (G : UCFG U) (h : fromDFTA d A = some G) :
+    ∃ fuel0, ∀ fuel, fuel0 ≤ fuel → ∃ Gc, clean G fuel = some Gc :=
+  clean_terminates_built (plainFlat d) A (fun _ _ _ _ => rfl) hinj hac G (built_of_build _ A _ G h)
+
+/-- the same for `from_DFTA_with_ngrams(dfta, n, clean=True)`, together with its language -/
+theorem C06_ngram_clean_partial (n : Int) (d : Q → UNT U) (A : DFTA Sym Q) (hd : A.Det)
+    (hinj : InjOn d A) (hac : Acyclic A) (bfuel : Nat) (G : UCFG (List (Sym × Nat) × U))
+    (h : fromDFTAWithNgrams n d A bfuel = some G) :
+    (∃ fuel0, ∀ fuel, fuel0 ≤ fuel → ∃ Gc, clean G fuel = some Gc) ∧
+    ((∀ k ∈ AList.keys G.rules, k.1 ≠ Ty.unknown) → ∀ fuel Gc, clean G fuel = some Gc →
+      ∀ t, contains Gc t = A.accepts t) := by
+  refine ⟨clean_terminates_built (ngramFlat n d) A (fun _ _ _ _ => rfl) hinj hac G
+    (built_of_build _ A _ G h), ?_⟩
+  intro hK fuel Gc hc t
+  rw [C06_clean_lang G hK fuel Gc hc t, C06_ngram_lang_partial n d A hd hinj bfuel G h t]
 
 /-! ## with the Python state values and `__d2state__` -/
 
